@@ -1,4 +1,4 @@
-CONSTANTS DocLen = 2  MaxDecls = 2  MaxFiles = 2  NRuns = 3  Bug = "NoTestFilter"  Emit = FALSE
+CONSTANTS DocLen = 2  MaxDecls = 2  MaxFiles = 2  NRuns = 3  Sizes = {}  Bug = "NoTestFilter"  Emit = FALSE
 INIT Init
 NEXT Next
 INVARIANT NoMismatch
